@@ -12,7 +12,7 @@ CHECKS = {
    note="Trusted: reference model; verif hooks (rotate/flush/one compaction round, Transaction::verif_start_seq, snapshot registry dump)."),
  "C02": dict(level="fault_enumeration", engine="E2", ref="DESIGN.md 3/C02, 2.4",
    technique="recorded syscall trace of real runs -> every crash image (process crash / power loss with byte cuts) opened by the real code; acknowledged-commit set from client-side ACK markers",
-   text="Every file-operation boundary of the traced executions is a crash point; at each, the process-crash image and the power-loss images (none / cuts at write boundaries / torn cuts inside the first unsynced write / single-file keep or lose) are opened by the real code and every transaction acknowledged (resp. acknowledged as durable) before that point must be in the recovered prefix. Enumeration over the traced runs; the runs themselves are sampled.",
+   text="Every file-operation boundary of the traced executions is a crash point; at each, the process-crash image and the power-loss images (none / cuts at write boundaries / torn cuts inside the first unsynced write / single-file keep or lose) are opened by the real code and every transaction acknowledged (resp. acknowledged as durable) before that point must be in the recovered prefix. Second-generation runs start from verified crash images (crash -> recover -> commit -> crash) and must keep what the first recovery returned. Enumeration over the traced runs; the runs themselves are sampled.",
    note="Trusted: LD_PRELOAD recorder (shim/iotrace.c) and the image builder (harness/src/trace.rs); power-loss model as stated in the property (ordered namespace, per-file synced prefix)."),
  "C03": dict(level="fault_enumeration", engine="E2", ref="DESIGN.md 3/C03",
    technique="same crash images as C02; recovered state compared with every prefix of the commit order (self-identifying values, per-transaction marker keys)",
@@ -33,7 +33,7 @@ CHECKS = {
  "C07": dict(level="fault_enumeration", engine="E1+E2", ref="DESIGN.md 3/C07",
    technique="clean close+reopen woven into fuzzed histories (model comparison after every reopen) + every enumerated crash image must open, open twice identically, and accept a probe commit that survives another reopen",
    text="Clean part: generated histories with close/reopen (also twice in a row and with a different format-compatible option set) after arbitrary flush/compaction shapes. Crash part: every enumerated crash image of the traced runs opens without error; a seeded subset also gets a probe commit (new key + overwrite of a recovered key), read back immediately and after another reopen.",
-   note="Trusted: as C02 and C06. Crash points inside recovery itself are covered only through the probe reopen (recovery is not yet traced a second generation)."),
+   note="Trusted: as C02 and C06. Crash points inside recovery are covered by the second-generation runs (a verified image becomes the start directory of another traced run whose open is the recovery)."),
  "C08": dict(level="exploration", engine="transaction-program monitor", ref="DESIGN.md 3/C08",
    technique="runtime monitor: generated and (short) exhaustively enumerated transaction programs, every call's result compared with an overlay model; observer and fresh transactions check isolation",
    text="All programs up to the stated length over a 10-operation alphabet (set/delete/soft delete/replace/set_at/get/scan/savepoint/rollback-to/commit) are enumerated on four stores; tens of thousands of seeded longer programs in all three modes, adversarial keys and values. Checked: read-your-writes, savepoint restore, rollback/drop invisibility, mode and closed rejections, committed result = surviving writes in issue order (with versioning also the version order).",
